@@ -339,6 +339,210 @@ theorem wrapper_hourly_missing_cause (c : Cfg α) (hc : CfgOK c) (hP : c.P = 360
   · rw [hP] at hlt; omega
   · exact h
 
+/-! ### invalid intervals, cause by cause -/
+
+/-- the validity test spelled out as the property words it: a missing end value, an end value below
+`-eps` ("negative"), or an interval longer than `maxgapsec` (whole seconds) -/
+theorem invalid_iff (c : Cfg α) (a b : Obs α) :
+    invalid c a b = true ↔ a.2 = none ∨ b.2 = none ∨ (∃ v, a.2 = some v ∧ v < -c.eps) ∨
+      (∃ v, b.2 = some v ∧ v < -c.eps) ∨ c.maxgap < b.1 - a.1 := by
+  obtain ⟨ta, va⟩ := a
+  obtain ⟨tb, vb⟩ := b
+  have hcast : ((c.maxgap : Int) : α) < ((tb : Int) : α) - ((ta : Int) : α) ↔ c.maxgap < tb - ta := by
+    rw [← Int.cast_sub, Int.cast_lt]
+  cases va <;> cases vb <;> simp [invalid, hcast, or_assoc]
+
+/-- **An invalid interval that overlaps a period makes it missing** — whatever else the period contains. -/
+theorem invalid_overlap_makes_missing (c : Cfg α) (hc : CfgOK c) (hstart nvalh : Int) (a b : Obs α)
+    (rest : List (Obs α)) (hs : Sorted (a :: b :: rest)) (ha : a.1 ≤ hstart)
+    (out : List (Option α)) (hk : kernel c hstart nvalh (a :: b :: rest) = .ok out)
+    (i : Nat) (o : Option α) (hi : out[i]? = some o)
+    (p : Obs α × Obs α) (hp : p ∈ pairs (a :: b :: rest))
+    (h1 : p.1.1 < perE c.P hstart i) (h2 : perS c.P hstart i < p.2.1) (hinv : invalid c p.1 p.2 = true) :
+    o = none := by
+  cases o with
+  | none => rfl
+  | some h =>
+    have := (nonmissing_covered_and_valid c hc hstart nvalh a b rest hs ha out hk i h hi).2 p hp h1 h2
+    rw [this] at hinv; exact absurd hinv (by simp)
+
+/-- **Gap handling.** An interval longer than `maxgapsec` makes every period it overlaps missing. -/
+theorem gap_makes_missing (c : Cfg α) (hc : CfgOK c) (hstart nvalh : Int) (a b : Obs α)
+    (rest : List (Obs α)) (hs : Sorted (a :: b :: rest)) (ha : a.1 ≤ hstart)
+    (out : List (Option α)) (hk : kernel c hstart nvalh (a :: b :: rest) = .ok out)
+    (i : Nat) (o : Option α) (hi : out[i]? = some o)
+    (p : Obs α × Obs α) (hp : p ∈ pairs (a :: b :: rest))
+    (h1 : p.1.1 < perE c.P hstart i) (h2 : perS c.P hstart i < p.2.1) (hgap : c.maxgap < p.2.1 - p.1.1) :
+    o = none :=
+  invalid_overlap_makes_missing c hc hstart nvalh a b rest hs ha out hk i o hi p hp h1 h2
+    ((invalid_iff c p.1 p.2).mpr (Or.inr (Or.inr (Or.inr (Or.inr hgap)))))
+
+/-- **An interval at most `maxgapsec` long with two non-negative end values never makes a period missing**:
+if every interval that overlaps or touches the period is of that kind and the data reach the end of the
+period, a value is returned. -/
+theorem valid_data_gives_value (c : Cfg α) (hc : CfgOK c) (hstart nvalh : Int) (a b : Obs α)
+    (rest : List (Obs α)) (hs : Sorted (a :: b :: rest)) (ha : a.1 ≤ hstart)
+    (out : List (Option α)) (hk : kernel c hstart nvalh (a :: b :: rest) = .ok out)
+    (i : Nat) (o : Option α) (hi : out[i]? = some o)
+    (hcov : perE c.P hstart i ≤ lastTime (a :: b :: rest))
+    (hvalid : ∀ p ∈ pairs (a :: b :: rest), p.1.1 < perE c.P hstart i → perS c.P hstart i ≤ p.2.1 →
+      (∃ v1 v2, p.1.2 = some v1 ∧ p.2.2 = some v2 ∧ 0 ≤ v1 ∧ 0 ≤ v2) ∧ p.2.1 - p.1.1 ≤ c.maxgap) :
+    ∃ h, o = some h := by
+  cases o with
+  | some h => exact ⟨h, rfl⟩
+  | none =>
+    exfalso
+    rcases missing_has_cause c hc hstart nvalh a b rest hs ha out hk i hi with hlt | ⟨p, hp, h1, h2, hinv⟩
+    · omega
+    · obtain ⟨⟨v1, v2, e1, e2, p1, p2⟩, hg⟩ := hvalid p hp h1 h2
+      have heps := hc.eps_pos
+      rcases (invalid_iff c p.1 p.2).mp hinv with h | h | ⟨v, hv, hlt⟩ | ⟨v, hv, hlt⟩ | h
+      · rw [e1] at h; exact absurd h (by simp)
+      · rw [e2] at h; exact absurd h (by simp)
+      · rw [e1] at hv; cases hv; linarith
+      · rw [e2] at hv; cases hv; linarith
+      · omega
+
+/-! ### the wrapper: validation, size, and transfer of the kernel theorems -/
+
+/-- a period other than 1800 / 3600 s is rejected before anything else -/
+theorem wrapper_rejects_bad_period (c : Cfg α) (obs : List (Obs α)) (h : c.P ≠ 1800 ∧ c.P ≠ 3600) :
+    wrapper c obs = .error .badPeriod := by
+  simp [wrapper, h]
+
+/-- `maxgapsec < 3600` is rejected -/
+theorem wrapper_rejects_small_maxgap (c : Cfg α) (obs : List (Obs α)) (hP : c.P = 1800 ∨ c.P = 3600)
+    (h : c.maxgap < 3600) : wrapper c obs = .error .badMaxgap := by
+  have h2 : ¬ (c.P ≠ 1800 ∧ c.P ≠ 3600) := by rcases hP with h | h <;> omega
+  simp [wrapper, h2, h]
+
+/-- half-hourly output: only the last computed period (number `nvalh - 2`) can overhang the data; all the
+earlier ones end at or before the last stamp -/
+theorem halfhourly_periods_within_data (first last : Int) (h : first ≤ last) (i : Nat)
+    (hi : (i : Int) < nvalhOf first last 1800 - 2) :
+    perE 1800 (origin first) i ≤ last := by
+  unfold nvalhOf at hi
+  rw [Int.tdiv_eq_ediv_of_nonneg (by omega)] at hi
+  have := origin_spec first
+  unfold perE; omega
+
+/-- the number of values is `trunc((last - first) / P)`: a series spanning `k` whole periods gives `k` values -/
+theorem nvalhOf_spec (first last P : Int) (h : first ≤ last) (hP : 0 < P) :
+    nvalhOf first last P * P ≤ last - first ∧ last - first < (nvalhOf first last P + 1) * P := by
+  unfold nvalhOf
+  rw [Int.tdiv_eq_ediv_of_nonneg (by omega)]
+  constructor
+  · have := Int.ediv_mul_le (last - first) (ne_of_gt hP); linarith
+  · have := Int.lt_ediv_add_one_mul_self (last - first) hP; linarith
+
+/-- a series that spans less than one period yields an empty result -/
+theorem wrapper_empty (c : Cfg α) (hc : CfgOK c) (hgap : 3600 ≤ c.maxgap) (a b : Obs α) (rest : List (Obs α))
+    (hs : Sorted (a :: b :: rest)) (hn : nvalhOf a.1 (lastTime (a :: b :: rest)) c.P = 0) :
+    wrapper c (a :: b :: rest) = .ok (origin a.1, []) := by
+  have hlastq : ∀ (l : List (Obs α)) (x : Obs α), (x :: l).getLast?.map Prod.fst = some (lastTime (x :: l)) := by
+    intro l
+    induction l with
+    | nil => intro x; simp
+    | cons y r ih => intro x; rw [List.getLast?_cons_cons, ih y, lastTime_cons_cons]
+  obtain ⟨lst, hlst⟩ : ∃ lst, (a :: b :: rest).getLast? = some lst := by
+    cases h : (a :: b :: rest).getLast? with
+    | none => simp at h
+    | some x => exact ⟨x, rfl⟩
+  have hl1 : lst.1 = lastTime (a :: b :: rest) := by
+    have := hlastq (b :: rest) a
+    rw [hlst] at this; simpa using this
+  have horg := origin_spec a.1
+  obtain ⟨out, hk, hlen, _⟩ := kernel_spec c hc (origin a.1) 0 a b rest hs (by omega)
+  have h2 : ¬ (c.P ≠ 1800 ∧ c.P ≠ 3600) := by rcases hc.period with h | h <;> omega
+  have h3 : ¬ c.maxgap < 3600 := by omega
+  simp only [wrapper, h2, h3, if_false, List.head?_cons, hlst, hl1, hn, hk]
+  simp
+
+/-- **The wrapper is the kernel plus one final missing value.** Whatever `var2h` returns on a
+non-decreasing series spanning at least one period is: the origin `origin a.1`, then the kernel's values for
+that origin and size, then one missing value.  Every kernel theorem above therefore speaks about the
+returned series (`res[i]? = out[i]?` for `i < out.length`). -/
+theorem wrapper_is_kernel_plus_final (c : Cfg α) (hc : CfgOK c) (hgap : 3600 ≤ c.maxgap) (a b : Obs α)
+    (rest : List (Obs α)) (hs : Sorted (a :: b :: rest))
+    (hn : 1 ≤ nvalhOf a.1 (lastTime (a :: b :: rest)) c.P)
+    (hstart : Int) (res : List (Option α)) (hw : wrapper c (a :: b :: rest) = .ok (hstart, res)) :
+    hstart = origin a.1 ∧ a.1 ≤ hstart ∧ (res.length : Int) = nvalhOf a.1 (lastTime (a :: b :: rest)) c.P ∧
+      ∃ out, kernel c hstart (nvalhOf a.1 (lastTime (a :: b :: rest)) c.P) (a :: b :: rest) = .ok out ∧
+        res = out ++ [none] := by
+  obtain ⟨out', hw', hlen, _⟩ := wrapper_spec c hc hgap a b rest hs hn
+  rw [hw] at hw'
+  have h1 := (Prod.mk.inj (Except.ok.inj hw')).1
+  have h2 := (Prod.mk.inj (Except.ok.inj hw')).2
+  subst h1 h2
+  have horg := origin_spec a.1
+  refine ⟨rfl, by omega, by rw [List.length_append, List.length_singleton]; push_cast; omega, out', ?_, rfl⟩
+  obtain ⟨out, hk, _, _⟩ := kernel_spec c hc (origin a.1)
+    (nvalhOf a.1 (lastTime (a :: b :: rest)) c.P) a b rest hs (by omega)
+  have : wrapper c (a :: b :: rest) = .ok (origin a.1, out ++ [none]) := by
+    have hlastq : ∀ (l : List (Obs α)) (x : Obs α), (x :: l).getLast?.map Prod.fst = some (lastTime (x :: l)) := by
+      intro l
+      induction l with
+      | nil => intro x; simp
+      | cons y r ih => intro x; rw [List.getLast?_cons_cons, ih y, lastTime_cons_cons]
+    obtain ⟨lst, hlst⟩ : ∃ lst, (a :: b :: rest).getLast? = some lst := by
+      cases h : (a :: b :: rest).getLast? with
+      | none => simp at h
+      | some x => exact ⟨x, rfl⟩
+    have hl1 : lst.1 = lastTime (a :: b :: rest) := by
+      have := hlastq (b :: rest) a
+      rw [hlst] at this; simpa using this
+    have h2 : ¬ (c.P ≠ 1800 ∧ c.P ≠ 3600) := by rcases hc.period with h | h <;> omega
+    have h3 : ¬ c.maxgap < 3600 := by omega
+    have h4 : ¬ nvalhOf a.1 (lastTime (a :: b :: rest)) c.P < 0 := by omega
+    have h5 : ¬ nvalhOf a.1 (lastTime (a :: b :: rest)) c.P = 0 := by omega
+    simp only [wrapper, h2, h3, if_false, List.head?_cons, hlst, hl1, h4, hk, h5]
+  rw [hw] at this
+  have h3 := List.append_cancel_right (Prod.mk.inj (Except.ok.inj this)).2
+  rw [h3]; exact hk
+
+/-- the final value of the returned series is missing -/
+theorem wrapper_final_missing (c : Cfg α) (hc : CfgOK c) (hgap : 3600 ≤ c.maxgap) (a b : Obs α)
+    (rest : List (Obs α)) (hs : Sorted (a :: b :: rest))
+    (hn : 1 ≤ nvalhOf a.1 (lastTime (a :: b :: rest)) c.P)
+    (hstart : Int) (res : List (Option α)) (hw : wrapper c (a :: b :: rest) = .ok (hstart, res)) :
+    res.getLast? = some none := by
+  obtain ⟨_, _, _, out, _, rfl⟩ := wrapper_is_kernel_plus_final c hc hgap a b rest hs hn hstart res hw
+  simp
+
+/-! ### storage resolution and time zone of the index -/
+
+/-- a whole-second wall-clock stamp `t` in a zone whose offset is `off` is stored as `(t - off) * perSec`
+ticks (the UTC instant); the wrapper's conversion gives back `t`, for every unit and every offset -/
+theorem wallSec_whole (u : TUnit) (t off : Int) : wallSec u ((t - off) * u.perSec) off = t := by
+  unfold wallSec
+  have hp : u.perSec ≠ 0 := by cases u <;> decide
+  rw [← add_mul, sub_add_cancel, Int.mul_ediv_cancel _ hp]
+
+/-- sub-second stamps are floored to the second (naive index) -/
+theorem wallSec_floor (u : TUnit) (q r : Int) (h0 : 0 ≤ r) (h1 : r < u.perSec) :
+    wallSec u (q * u.perSec + r) 0 = q := by
+  unfold wallSec
+  have hp : 0 < u.perSec := by cases u <;> decide
+  rw [zero_mul, add_zero, add_comm, Int.add_mul_ediv_right _ _ (ne_of_gt hp), Int.ediv_eq_zero_of_lt h0 h1, zero_add]
+
+/-- **Independence of storage resolution and time zone.** Take whole-second wall-clock stamps
+`(t, utc offset, value)`; store them in any unit, each with its own UTC offset (any zone, daylight
+saving included): `var2h` returns what it returns for the naive list of wall-clock seconds. -/
+theorem index_independence (c : Cfg α) (u : TUnit) (l : List (Int × Int × Option α)) :
+    wrapperIdx c u (l.map fun x => ((x.1 - x.2.1) * u.perSec, x.2.1, x.2.2)) =
+      wrapper c (l.map fun x => (x.1, x.2.2)) := by
+  unfold wrapperIdx obsOfIndex
+  congr 1
+  rw [List.map_map]
+  apply List.map_congr_left
+  intro x _
+  simp [wallSec_whole]
+
+/-- two stored indexes that read the same wall-clock seconds give the same result -/
+theorem index_independence_two (c : Cfg α) (u1 u2 : TUnit) (l1 l2 : List (Stamp α))
+    (h : obsOfIndex u1 l1 = obsOfIndex u2 l2) : wrapperIdx c u1 l1 = wrapperIdx c u2 l2 := by
+  unfold wrapperIdx; rw [h]
+
 end field
 
 /-! ### the trapezoid is the integral (ℝ) -/
